@@ -88,9 +88,11 @@ func (ucr *UnsignedChunkReader) Read(p []byte) (int, error) {
 			break
 		}
 		rdr := io.TeeReader(ucr.reader, ucr.hasher)
-		payload := make([]byte, chunkSize)
-		// Read and cache the payload
-		_, err = io.ReadFull(rdr, payload)
+		// Read and cache the payload. The buffer grows with the data that
+		// arrives: the announced size is not trusted for the allocation
+		var buf bytes.Buffer
+		_, err = io.CopyN(&buf, rdr, chunkSize)
+		payload := buf.Bytes()
 		if err != nil {
 			if err == io.EOF {
 				// the stream ended where chunk data was announced
